@@ -10,8 +10,8 @@ go build ./... 2>&1 | grep -v 'sqlite3\|standin\|pNew\|\^' ; echo "build exit: $
 go test -vet=off -count=1 ./... 2>&1 | grep -E '^(ok|FAIL|---)' | grep -v 'Convert_Random' | head -20
 cp "$DEMO" "$DEST"
 echo "== demo WITH change (expect FAIL)"; go test -vet=off -count=1 -run "$RUN" "$PKG" 2>&1 | grep -E '^(ok|FAIL|--- FAIL|panic)' | head -5
-git stash -q -- $(git diff --name-only)
+TMPD=$(mktemp /tmp/confirm-XXXX.diff); git diff > $TMPD; git apply -R $TMPD   # (not git stash: the stash is shared by all worktrees)
 echo "== demo WITHOUT change (expect ok)"; go test -vet=off -count=1 -run "$RUN" "$PKG" 2>&1 | grep -E '^(ok|FAIL|--- FAIL|panic)' | head -5
-git stash pop -q
+git apply $TMPD; rm -f $TMPD
 rm -f "$DEST"
 git status --short | head
